@@ -83,12 +83,7 @@ def work(item):
         for sig, msg in check_life(lay, h, life, res):
             res.violation(sig, f"layout {lay['name']}: {msg}", dict(engine="robot", layout=lay, history=h, source=R.robot_source(lay)))
         res.outcome(core.stable_hash([lay["name"], [R.fmt_sites(R.norm_sites(life.log[s['start']:s['end']])) for s in life.steps]]))
-        prev = None
-        n = 0
-        for m in h:
-            n = n + 1 if m == prev else 1
-            res.extra.setdefault("_states", set()).add((lay["name"], prev, m, min(n, 3)))
-            prev = m
+        R.visit_history(res, lay, h)
         if not res.samples and len(h) >= 3:
             res.sample(dict(layout=lay["name"], history=h, callbacks=[R.fmt_sites(R.norm_sites(life.log[s['start']:s['end']])) for s in life.steps]))
     # determinism: re-run one history of this chunk
@@ -106,9 +101,7 @@ def work(item):
             for sig, msg in va + vb:
                 res.violation(sig, f"layout {lay['name']}: {msg}", dict(engine="robot", layout=lay, history=h, source=R.robot_source(lay)))
         res.determinism_reruns += 1
-    d = res.to_dict()
-    d["extra"]["_states"] = sorted(map(list, res.extra.get("_states", ())), key=repr)
-    return d
+    return res
 
 
 def main(tier, seed):
@@ -131,11 +124,8 @@ def main(tier, seed):
         for i in range(0, len(hh), 40):
             items.append(dict(layout=lay, histories=hh[i:i + 40], seed=seed))
     res = core.Result()
-    states = set()
     for d in core.parallel("mc.props.c05", "work", items, seed=seed):
-        states.update(tuple(x) for x in d["extra"].pop("_states", []))
         res.merge(d)
-    res.states = len(states)
     res.bounds.update(three_word_history_depth=6 if tier == "quick" else 9, two_word_history_depth=8 if tier == "quick" else 11, history_depth=depth, layouts=len(layouts(tier)), histories_per_layout=len(hs), alphabet="boot word + one driver-station word per loop iteration from {disabled, autonomous, teleop, test}; shutdown after every history")
     rule = (
         "every driver-station history up to the stated depth (boot word, then one word per control-loop iteration, then endCompetition) "
